@@ -1107,6 +1107,16 @@ class OMPSerialDirective(OMPRegionDirective, metaclass=abc.ABCMeta):
                 f"{self._text_name} must not be inside another OpenMP "
                 f"serial region")
 
+        # Nor may it be closely nested inside a worksharing or taskloop
+        # region.
+        cursor = self.parent
+        while cursor and not isinstance(cursor, OMPParallelDirective):
+            if isinstance(cursor, (OMPDoDirective, OMPTaskloopDirective)):
+                raise GenerationError(
+                    f"{self._text_name} must not be closely nested inside "
+                    f"an OpenMP worksharing or taskloop region")
+            cursor = cursor.parent
+
         super().validate_global_constraints()
 
 
@@ -2061,6 +2071,17 @@ class OMPDoDirective(OMPRegionDirective):
             raise GenerationError(
                 "OMPDoDirective must be inside an OMP parallel region but "
                 "could not find an ancestor OMPParallelDirective node")
+
+        # A worksharing region may not be closely nested inside another
+        # worksharing, serial or taskloop region.
+        cursor = self.parent
+        while cursor and not isinstance(cursor, OMPParallelDirective):
+            if isinstance(cursor, (OMPDoDirective, OMPSerialDirective,
+                                   OMPTaskloopDirective)):
+                raise GenerationError(
+                    "OMPDoDirective must not be closely nested inside an "
+                    "OpenMP worksharing, serial or taskloop region")
+            cursor = cursor.parent
 
         self._validate_single_loop()
         self._validate_collapse_value()
